@@ -1,7 +1,10 @@
-(* C07 for the converter: on inputs whose names resolve (what the validator guarantees), the only
-   Panic sites of Gen/Convert.v that can be reached are the flatten INDEX sites; every unchecked
-   map / pointer dereference of convert.go and genqlient_directive.go is unreachable. *)
-From Verif Require Import Base.Str Gen.Consts Gen.Casing Gen.Enum Gen.Gql Gen.Doc Gen.Directive Gen.Convert Gen.Wf Proofs.ConvertProofs.
+(* C07 for the converter: on inputs whose names resolve (what the validator guarantees) and whose
+   positions are inside their sources (Gen/Wf.v op_posb / frags_posb: the line index of
+   parsePrecedingComment is in range), the only Panic sites of Gen/Convert.v that can be reached
+   are the flatten INDEX sites; every unchecked map / pointer dereference of convert.go and
+   genqlient_directive.go is unreachable. *)
+From Verif Require Import Base.Str Gen.Consts Gen.Casing Gen.Enum Gen.Gql Gen.Doc Gen.Directive Gen.Convert Gen.Wf Proofs.ConvertProofs
+  Proofs.DirectiveProofs.
 From Coq Require Import ZArith.
 
 (* the sites that remain: indexing the converted fields with the position of the spread *)
@@ -41,10 +44,11 @@ Section WF.
 
   Hypothesis Hsch : schema_okb = true.
   Hypothesis Hfr : frags_okb = true.
+  Hypothesis Hfrp : frags_posb srcs frags = true.
 
   Lemma find_type_in n d : find_type sch n = Some d -> In d sch.
   Proof.
-    clear Hsch Hfr. induction sch as [|t r IH]; cbn [find_type]; [discriminate|].
+    clear Hsch Hfr Hfrp. induction sch as [|t r IH]; cbn [find_type]; [discriminate|].
     destruct (str_eqb (td_name t) n); [intro H; injection H as <-; left; reflexivity | intro H; right; exact (IH H)].
   Qed.
 
@@ -53,12 +57,15 @@ Section WF.
 
   Lemma find_fragment_in n fr : find_fragment frags n = Some fr -> In fr frags.
   Proof.
-    clear Hsch Hfr. unfold find_fragment. induction frags as [|f r IH]; cbn; [discriminate|].
+    clear Hsch Hfr Hfrp. unfold find_fragment. induction frags as [|f r IH]; cbn; [discriminate|].
     destruct (str_eqb (fr_name f) n); [intro H; injection H as <-; left; reflexivity | intro H; right; exact (IH H)].
   Qed.
 
   Lemma frag_ok_of_find n fr : find_fragment frags n = Some fr -> frag_okb fr = true.
   Proof. intro H. apply find_fragment_in in H. unfold frags_okb in Hfr. rewrite forallb_forall in Hfr. exact (Hfr fr H). Qed.
+
+  Lemma frag_pos_of_find n fr : find_fragment frags n = Some fr -> frag_posb srcs fr = true.
+  Proof. intro H. apply find_fragment_in in H. unfold frags_posb in Hfrp. rewrite forallb_forall in Hfrp. exact (Hfrp fr H). Qed.
 
   Lemma possible_in d i : In i (possible_types sch d) -> In i sch.
   Proof. unfold possible_types. destruct (td_kind d); try (intros []); intro H; apply filter_In in H; exact (proj1 H). Qed.
@@ -91,10 +98,12 @@ Section WF.
 
   Lemma pp_ok n key pos Q :
     (match n with NField tb _ => is_some (find_type sch tb) = true | _ => True end) ->
+    pos_in_range srcs pos ->
     ok_res (parse_preceding sch frags srcs n key pos Q).
   Proof.
-    intro Hn. unfold parse_preceding. apply ok_bind.
-    - destruct pos as [[s line]|]; [apply no_crash_ok, scan_total | exact I].
+    intros Hn Hp. unfold parse_preceding. apply ok_bind.
+    - destruct pos as [[s line]|]; [|exact I]. cbn in Hp.
+      destruct (lines_above_pos_ok _ _ _ Hp) as [above ->]. cbn [bind]. apply no_crash_ok, scan_total.
     - intros [D has] _. apply ok_bind.
       + destruct has; [apply validate_ok, Hn | exact I].
       + intros u _. destruct Q as [q|]; [|exact I]. destruct (typename_bind_conflict _); exact I.
@@ -359,7 +368,10 @@ Section WF.
   Lemma ty_ok_base t : ty_okb t = true -> is_some (find_type sch (ty_base t)) = true.
   Proof. induction t as [n nn|e IH nn]; cbn; auto. Qed.
 
-  Definition sels_ok (sels : list sel) : Prop := forallb sel_okb sels = true.
+  Definition sels_ok (src : nat) (sels : list sel) : Prop :=
+    forallb sel_okb sels = true /\ forallb (sel_posb srcs src) sels = true.
+  Lemma sels_ok_nil src : sels_ok src [].
+  Proof. split; reflexivity. Qed.
 
   Lemma flat_tail_ok {A} (fields : list gofield) (fr : flat_res) (k : res A) (mk : gofield -> res A) :
     ok_res k -> (forall fl, ok_res (mk fl)) ->
@@ -376,13 +388,14 @@ Section WF.
   Qed.
 
   Theorem convert_ok : forall f,
-    (forall src prefix t sels opts Q tm, ty_okb t = true -> sels_ok sels ->
+    (forall src prefix t sels opts Q tm, ty_okb t = true -> sels_ok src sels ->
        ok_res (convert_type sch cfg frags srcs f src prefix t sels opts Q tm))
-    /\ (forall src prefix def sels opts Q tm, In def sch -> sels_ok sels ->
+    /\ (forall src prefix def sels opts Q tm, In def sch -> sels_ok src sels ->
        ok_res (convert_definition sch cfg frags srcs f src prefix def sels opts Q tm))
-    /\ (forall src prefix sels containing Q tm, sels_ok sels ->
+    /\ (forall src prefix sels containing Q tm, sels_ok src sels ->
        ok_res (convert_selection_set sch cfg frags srcs f src prefix sels containing Q tm))
-    /\ (forall fr tm, frag_okb fr = true -> ok_res (convert_named_fragment sch cfg frags srcs f fr tm)).
+    /\ (forall fr tm, frag_okb fr = true -> frag_posb srcs fr = true ->
+         ok_res (convert_named_fragment sch cfg frags srcs f fr tm)).
   Proof.
     induction f as [|f (IHt & IHd & IHs & IHn)].
     - repeat split; intros; exact I.
@@ -428,7 +441,7 @@ Section WF.
             apply ok_mfold. intros [done tmx] fd Hfd.
             apply ok_bind; [apply pp_ok; exact I|]. intros D _.
             apply ok_bind.
-            + apply IHt; [|reflexivity].
+            + apply IHt; [|apply sels_ok_nil].
               pose proof (def_ok_of_in _ Hin) as Hd. unfold def_okb in Hd. rewrite forallb_forall in Hd. exact (Hd fd Hfd).
             + intros [[g o] tmy] _. okr. }
         destruct (assoc (td_name def) (cfg_bindings cfg)) as [bd|].
@@ -439,31 +452,35 @@ Section WF.
         intros src prefix sels containing Q tm Hs. rewrite convert_selection_set_S.
         apply ok_bind; [|intros [fields tm'] _; apply ok_bind; [apply dedup_fields_ok | intros; exact I]].
         apply ok_mfold. intros [done tmx] s Hin.
-        unfold sels_ok in Hs. rewrite forallb_forall in Hs. pose proof (Hs s Hin) as Hk.
-        destruct s as [alias name fty parent extra sub line|cond extra sub line|name extra line]; cbn [sel_okb] in Hk.
+        destruct Hs as [Hs Hps]. rewrite forallb_forall in Hs, Hps. pose proof (Hs s Hin) as Hk. pose proof (Hps s Hin) as Hq.
+        destruct s as [alias name fty parent extra sub line|cond extra sub line|name extra line]; cbn [sel_okb] in Hk; cbn [sel_posb] in Hq.
         * apply Bool.andb_true_iff in Hk. destruct Hk as [Hty Hsub].
-          apply ok_bind; [apply pp_ok; exact (ty_ok_base _ Hty)|]. intros D _. cbv zeta.
-          apply ok_bind; [apply IHt; [exact Hty | exact Hsub]|]. intros [[g o] tmy] _. exact I.
+          apply Bool.andb_true_iff in Hq. destruct Hq as [Hl Hpsub].
+          apply ok_bind; [apply pp_ok; [exact (ty_ok_base _ Hty) | exact (pos_of_in_range _ _ _ Hl)]|]. intros D _. cbv zeta.
+          apply ok_bind; [apply IHt; [exact Hty | split; [exact Hsub | exact Hpsub]]|]. intros [[g o] tmy] _. exact I.
         * apply Bool.andb_true_iff in Hk. destruct Hk as [Hc Hsub].
-          apply ok_bind; [apply pp_ok; exact I|]. intros D _.
+          apply Bool.andb_true_iff in Hq. destruct Hq as [Hl Hpsub].
+          apply ok_bind; [apply pp_ok; [exact I | exact (pos_of_in_range _ _ _ Hl)]|]. intros D _.
           assert (Hft : exists ft, match cond with [] => Some containing | _ :: _ => find_type sch cond end = Some ft).
           { destruct cond; [eexists; reflexivity|]. destruct (find_type sch (n :: cond)); [eexists; reflexivity | discriminate Hc]. }
           destruct Hft as [ft ->].
           destruct (negb (fragment_matches containing ft)); [exact I|].
-          apply ok_bind; [apply IHs, Hsub|]. intros [fs tmy] _. exact I.
-        * apply ok_bind; [apply pp_ok; exact I|]. intros D _.
+          apply ok_bind; [apply IHs; split; [exact Hsub | exact Hpsub]|]. intros [fs tmy] _. exact I.
+        * apply ok_bind; [apply pp_ok; [exact I | exact (pos_of_in_range _ _ _ Hq)]|]. intros D _.
           destruct (find_fragment frags name) as [fr|] eqn:Ef; [|discriminate Hk].
           pose proof (frag_ok_of_find _ _ Ef) as Hfo. pose proof Hfo as Hfo2. unfold frag_okb in Hfo2.
           apply Bool.andb_true_iff in Hfo2. destruct Hfo2 as [Hon _].
           destruct (find_type sch (fr_on fr)) as [ft|]; [|discriminate Hon].
           destruct (negb (fragment_matches containing ft)); [exact I|].
           apply ok_bind; [apply get_type_ok|]. intros e _.
-          apply ok_bind; [destruct e; [exact I | apply IHn, Hfo]|]. intros [g tmy] _. exact I.
+          apply ok_bind; [destruct e; [exact I | apply IHn; [exact Hfo | exact (frag_pos_of_find _ _ Ef)]]|]. intros [g tmy] _. exact I.
       + (* convertNamedFragment *)
-        intros fr tm Hfo. rewrite convert_named_fragment_S. pose proof Hfo as Hfo2. unfold frag_okb in Hfo2.
-        apply Bool.andb_true_iff in Hfo2. destruct Hfo2 as [Hon Hsel].
+        intros fr tm Hfo Hfp. rewrite convert_named_fragment_S. pose proof Hfo as Hfo2. unfold frag_okb in Hfo2.
+        apply Bool.andb_true_iff in Hfo2. destruct Hfo2 as [Hon Hsel0].
+        unfold frag_posb in Hfp. apply Bool.andb_true_iff in Hfp. destruct Hfp as [Hl Hpsel].
+        assert (Hsel : sels_ok (fr_src fr) (fr_sel fr)) by (split; [exact Hsel0 | exact Hpsel]).
         destruct (find_type sch (fr_on fr)) as [typ|]; [|discriminate Hon].
-        apply ok_bind; [apply pp_ok; exact I|]. intros D _.
+        apply ok_bind; [apply pp_ok; [exact I | exact (pos_of_in_range _ _ _ Hl)]|]. intros D _.
         apply ok_bind; [apply IHs, Hsel|]. intros [fields tm1] _.
         apply flat_tail_ok; try reflexivity; try (intros; exact I).
         destruct (td_kind typ); try exact I.
@@ -477,58 +494,83 @@ Section WF.
   Qed.
 
   Lemma convert_arguments_ok o Q tm :
-    forallb (fun v => ty_okb (vd_type v)) (op_vars o) = true -> ok_res (convert_arguments sch cfg frags srcs o Q tm).
+    forallb (fun v => ty_okb (vd_type v)) (op_vars o) = true ->
+    forallb (fun v => pos_okb srcs (op_src o) (vd_line v)) (op_vars o) = true ->
+    ok_res (convert_arguments sch cfg frags srcs o Q tm).
   Proof.
-    intro Hv. unfold convert_arguments. destruct (op_vars o) as [|v0 vs] eqn:Ev; [exact I|]. cbv zeta.
+    intros Hv Hpv. unfold convert_arguments. destruct (op_vars o) as [|v0 vs] eqn:Ev; [exact I|]. cbv zeta.
     apply ok_bind.
     - apply ok_mfold. intros [done tmx] v Hin. destruct (mem_str (vd_name v) go_keywords); [exact I|].
-      apply ok_bind; [apply pp_ok; exact I|]. intros D _.
+      apply ok_bind; [apply pp_ok; [exact I | apply pos_of_in_range; rewrite forallb_forall in Hpv; exact (Hpv v Hin)]|]. intros D _.
       apply ok_bind.
-      + apply (proj1 (convert_ok FUEL)); [|reflexivity]. rewrite forallb_forall in Hv. exact (Hv v Hin).
+      + apply (proj1 (convert_ok FUEL)); [|apply sels_ok_nil]. rewrite forallb_forall in Hv. exact (Hv v Hin).
       + intros [[g opt] tmy] _. exact I.
     - intros [fields tm1] _. apply ok_bind; [apply add_type_ok|]. intros [t tm2] _. destruct t; exact I.
   Qed.
 
   Lemma convert_operation_ok o Q tm :
     is_some (root_type sch (op_kind o)) = true -> forallb sel_okb (op_sel o) = true ->
+    forallb (sel_posb srcs (op_src o)) (op_sel o) = true ->
     ok_res (convert_operation sch cfg frags srcs o Q tm).
   Proof.
-    intros Hr Hs. unfold convert_operation. cbv zeta.
+    intros Hr Hs Hps. unfold convert_operation. cbv zeta.
     destruct (root_type sch (op_kind o)) as [base|]; [|discriminate Hr].
-    apply ok_bind; [apply (proj1 (proj2 (proj2 (convert_ok FUEL)))), Hs|]. intros [fields tm1] _.
+    apply ok_bind; [apply (proj1 (proj2 (proj2 (convert_ok FUEL)))); split; [exact Hs | exact Hps]|]. intros [fields tm1] _.
     apply flat_tail_ok; try reflexivity; try (intros; exact I). apply add_type_ok.
   Qed.
 
-  Lemma add_operation_ok acc o : op_okb o = true -> ok_res (add_operation sch cfg frags srcs acc o).
+  Lemma add_operation_ok acc o : op_okb o = true -> op_posb srcs o = true -> ok_res (add_operation sch cfg frags srcs acc o).
   Proof.
-    intro Ho. unfold op_okb in Ho. apply Bool.andb_true_iff in Ho. destruct Ho as [Ho Hv].
+    intros Ho Hp. unfold op_posb in Hp. apply Bool.andb_true_iff in Hp. destruct Hp as [Hp Hpv].
+    apply Bool.andb_true_iff in Hp. destruct Hp as [Hl Hps].
+    unfold op_okb in Ho. apply Bool.andb_true_iff in Ho. destruct Ho as [Ho Hv].
     apply Bool.andb_true_iff in Ho. destruct Ho as [Hr Hs].
     unfold add_operation. destruct acc as [tm done]. destruct (op_name o); [exact I|].
     destruct (mem_str _ go_keywords); [exact I|].
-    apply ok_bind; [apply pp_ok; exact I|]. intros D _.
-    apply ok_bind; [apply convert_arguments_ok, Hv|]. intros [inp tm1] _.
+    apply ok_bind; [apply pp_ok; [exact I | exact (pos_of_in_range _ _ _ Hl)]|]. intros D _.
+    apply ok_bind; [apply convert_arguments_ok; [exact Hv | exact Hpv]|]. intros [inp tm1] _.
     apply ok_bind; [apply convert_operation_ok; assumption|]. intros [resp tm2] _. exact I.
   Qed.
 
-  (* the whole type generation: with names resolved, a Panic can only be one of the flatten index
-     sites *)
-  Theorem generate_types_ok ops : forallb op_okb ops = true -> ok_res (generate_types sch cfg frags srcs ops).
+  (* the whole type generation: with names resolved and positions in range, a Panic can only be
+     one of the flatten index sites *)
+  Theorem generate_types_ok ops :
+    forallb op_okb ops = true -> forallb (op_posb srcs) ops = true -> ok_res (generate_types sch cfg frags srcs ops).
   Proof.
-    intro Ho. unfold generate_types. apply ok_mfold. intros acc o Hin. apply add_operation_ok.
-    rewrite forallb_forall in Ho. exact (Ho o Hin).
+    intros Ho Hp. unfold generate_types. apply ok_mfold. intros acc o Hin. apply add_operation_ok.
+    - rewrite forallb_forall in Ho. exact (Ho o Hin).
+    - rewrite forallb_forall in Hp. exact (Hp o Hin).
   Qed.
 End WF.
 
-(* stated without the section: the three boolean conditions are what gqlparser's validator
-   guarantees for an accepted document (every named type, fragment and root type resolves) *)
+(* stated without the section: the first three boolean conditions are what gqlparser's validator
+   guarantees for an accepted document (every named type, fragment and root type resolves); the
+   last two say that every position (line of an operation, variable, fragment definition, field,
+   inline fragment, spread) is inside the source it indexes *)
 Theorem converter_panics_only_at_flatten_index_sites sch cfg frags srcs ops :
   schema_okb sch = true -> frags_okb sch frags = true -> forallb (op_okb sch frags) ops = true ->
+  frags_posb srcs frags = true -> forallb (op_posb srcs) ops = true ->
   forall s, generate_types sch cfg frags srcs ops = Panic s -> flat_site s = true.
 Proof.
-  intros H1 H2 H3 s E. pose proof (generate_types_ok sch cfg frags srcs H1 H2 ops H3) as H. rewrite E in H. exact H.
+  intros H1 H2 H3 H4 H5 s E. pose proof (generate_types_ok sch cfg frags srcs H1 H2 H4 ops H3 H5) as H. rewrite E in H. exact H.
 Qed.
 
 (* non-vacuity: the hypotheses hold of a concrete program (the one of ConvertProofs) *)
 Example w_program_is_wf :
-  schema_okb w_schema = true /\ frags_okb w_schema [w_frag] = true /\ forallb (op_okb w_schema [w_frag]) [w_op] = true.
+  schema_okb w_schema = true /\ frags_okb w_schema [w_frag] = true /\ forallb (op_okb w_schema [w_frag]) [w_op] = true
+  /\ frags_posb w_srcs [w_frag] = true /\ forallb (op_posb w_srcs) [w_op] = true.
 Proof. repeat split; vm_compute; reflexivity. Qed.
+
+(* the position hypotheses are NEEDED: a program whose names all resolve, with a source that has
+   fewer lines than the positions say (Proofs/ConvertProofs.v w_cr_op), reaches the line-index
+   Panic of parsePrecedingComment, which is not a flatten site.  Only the position check fails;
+   against the source split into its four lines the same program has all the hypotheses. *)
+Theorem line_index_site_needs_positions :
+  schema_okb w_schema = true /\ frags_okb w_schema [] = true /\ forallb (op_okb w_schema []) [w_cr_op] = true
+  /\ forallb (op_posb w_cr_srcs) [w_cr_op] = false
+  /\ forallb (op_posb w_lf_srcs) [w_cr_op] = true
+  /\ exists m, generate_types w_schema w_cfg [] w_cr_srcs [w_cr_op] = Panic m /\ flat_site m = false.
+Proof.
+  repeat split; try (vm_compute; reflexivity).
+  eexists. split; [exact line_index_out_of_range_panics | vm_compute; reflexivity].
+Qed.
